@@ -1,6 +1,8 @@
 package proxy
 
 import (
+	"net"
+
 	erpc "github.com/henrylee2cn/erpc/v6"
 	"github.com/henrylee2cn/erpc/v6/socket"
 )
@@ -287,4 +289,79 @@ func VX_C19_Sequence(args []int) {
 		vxAssert(vxCountKey(rkv, "rk") == 1 && vxGet(rkv, "rk") == "rv-"+tag, "the caller receives the backend's reply metadata for this call (one value per key)")
 	}
 	vxCover("c19.sequence")
+}
+
+func init() { vxRegister("VX_C19_BackendLoss", VX_C19_BackendLoss) }
+
+// VX_C19_BackendLoss: the forwarder is a dialled session with redial enabled
+// (the shipped way of keeping a backend link alive). The backend connection is
+// lost after the forwarded call was written / before anything was forwarded:
+// the request reaches the backend side at most once per proxied request, and
+// the caller gets exactly one reply (502 when the forwarded call was lost).
+// args: when(0 lost after the call was written, 1 lost before the call arrives), kind(0 CALL, 1 PUSH)
+func VX_C19_BackendLoss(args []int) {
+	when, kind := args[0], args[1]
+	var conns []*vxConn
+	erpc.VXSetDialHook(func(addr string) (net.Conn, error) {
+		c := newVxConn("proxy:9", addr)
+		conns = append(conns, c)
+		return c, nil
+	})
+	defer erpc.VXSetDialHook(nil)
+	cli := erpc.NewPeer(erpc.PeerConfig{RedialTimes: 2})
+	bsess, st := cli.Dial("backend:1")
+	vxAssume(st.OK())
+	vxWaitIdle()
+	front := erpc.NewPeer(erpc.PeerConfig{}, NewPlugin(func(*Label) Forwarder { return &vxFwd{bsess} }))
+	fconn := newVxConn("proxy:1", "caller:7")
+	_, st = front.ServeConn(fconn)
+	vxAssume(st.OK())
+	if when == 1 {
+		conns[0].end()
+		vxWaitIdle()
+	}
+	mtype := erpc.TypeCall
+	if kind == 1 {
+		mtype = erpc.TypePush
+	}
+	fconn.feed(vxFrame(mtype, 11, "/back/end", []byte("once")))
+	vxWaitIdle()
+	forwarded := func() int {
+		n := 0
+		for _, c := range conns {
+			for _, w := range c.writes {
+				if m, err := vxParse(w); err == nil && m.ServiceMethod() == "/back/end" {
+					n++
+				}
+			}
+		}
+		return n
+	}
+	vxAssert(forwarded() == 1, "forwarded exactly once to the backend")
+	if when == 0 && kind == 0 {
+		// the backend received the call and its connection dies before it answers
+		conns[0].end()
+		vxWaitIdle()
+		vxAssert(forwarded() == 1, "a proxied call whose backend connection was lost after it was sent is not sent again")
+		vxAssert(fconn.nWrites() == 1, "[C02] the caller gets exactly one reply")
+		if fconn.nWrites() == 1 {
+			rm, err := vxParse(fconn.writes[0])
+			vxAssert(err == nil && rm.Seq() == 11 && rm.Status(true).Code() == erpc.CodeBadGateway, "backend connection failure surfaces as Bad Gateway")
+		}
+	} else if kind == 0 {
+		// redialled link: the backend answers
+		last := conns[len(conns)-1]
+		vxAssert(last.nWrites() == 1, "forwarded on the re-established link")
+		if last.nWrites() == 1 {
+			fm, _ := vxParse(last.writes[0])
+			last.feed(vxFrame(erpc.TypeReply, fm.Seq(), "", []byte("pong")))
+			vxWaitIdle()
+			vxAssert(fconn.nWrites() == 1, "[C02] the caller gets exactly one reply")
+			if fconn.nWrites() == 1 {
+				rm, err := vxParse(fconn.writes[0])
+				vxAssert(err == nil && rm.StatusOK() && string(vxBodyOf(rm)) == "pong", "backend's reply reaches the caller")
+			}
+		}
+	}
+	vxCover("c19.backend-loss")
 }
